@@ -110,6 +110,24 @@ def fname(e):
     return "col"
 
 
+def col_sig(t):
+    """kind and shape of a column type: float:interval, opt_int:values, list(int:single)"""
+    if t["k"] == "opt":
+        return "opt_" + col_sig(t["t"])
+    if t["k"] == "list":
+        return "list(" + col_sig(t["t"]) + ")"
+    ivs = t.get("ivs")
+    if ivs is None:
+        return t["k"]
+    if all(a == b for a, b in ivs):
+        return t["k"] + (":values" if len(ivs) > 1 else ":single")
+    return t["k"] + ":interval"
+
+
+def emb_class(name):
+    return "extreme" if name in ("extreme", "p53") else "small"
+
+
 def run(tier, t0):
     thin = 1
     r = C.tlc("MC_Functions", "MC_Functions.cfg", "c06_cases", workers=4, timeout=3000, constants={"Which": '"image"', "Thin": thin}, heap="8g")
@@ -130,7 +148,8 @@ def run(tier, t0):
         o, rec = obs[i - 1], recs[i - 1]
         c = cases[o["case"]]
         bad = [p for p, q in zip(o["points"], rec["points"]) if q["value"] == "ok" and (rec["image"] != "ok" or not (q["lib"] if not q["structural"] else True))][:3]
-        rep.fail(f"{judge}/{fname(c['expr'])}", f"judge {judge} failed for {fname(c['expr'])}",
+        key = f"{judge}/{fname(c['expr'])}/{','.join(col_sig(t) for t in c['cols'])}/{emb_class(o['emb'])}"
+        rep.fail(key, f"judge {judge} failed for {fname(c['expr'])}",
                  {"engine": "dt-image", "case": {"expr": c["expr"], "cols": c["cols"], "embedding": o["emb"], "image": o["image"], "image_type": o["image_type"],
                                                    "points": [p for p in o["points"] if p["value"] == "ok"][:6]}})
     # binding self-test
